@@ -423,7 +423,7 @@ def s2_trace_quat():
 
 
 def s2_trace_geom():
-    """PRE_LEAN hook of C20: re-trace geometry.to_cartesian / to_spherical and rewrite lean/Generated/TracedGeom.lean
+    """PRE_LEAN hook of C20: re-trace geometry.to_cartesian / to_spherical / poles (one symbolic orientation, six strings) and rewrite lean/Generated/TracedGeom.lean
     (bridge: lean/Bridge/Geom.lean)."""
     from .trace import tracer
 
